@@ -67,9 +67,16 @@ deriving Repr, DecidableEq
 
 def Tags.samples (t : Tags) : List Sample := t.data.map fun x => (x, x)
 
-/-- `TimeTags.slice`. -/
+/-- `TimeTags.__init__(data, start=None, stop=None)`: a missing bound defaults to the first timestamp /
+    one past the last one (0 for no data).  `0` is a legitimate explicit bound (`is not None`, not truthiness). -/
+def Tags.init (data : List Int) (start stop : Option Int) : Tags :=
+  { data := data,
+    start := match start with | some s => s | none => (data.head?).getD 0,
+    stop := match stop with | some s => s | none => ((data.getLast?).map (· + 1)).getD 0 }
+
+/-- `TimeTags.slice`: `self.__class__(self.data[idx], min(start, stop), max(start, stop))`. -/
 def Tags.slice (t : Tags) (a b : Int) : Tags :=
-  { data := t.data.filter (fun x => decide (a ≤ x) && decide (x < b)), start := min a b, stop := max a b }
+  Tags.init (t.data.filter (fun x => decide (a ≤ x) && decide (x < b))) (some (min a b)) (some (max a b))
 
 /-! ### `Slice.__getitem__` -/
 
@@ -252,6 +259,75 @@ def parseTime (s : String) : Option Int :=
     | some '\n' => matchFull cs.dropLast
     | _ => none
 
+/-! ### `Slice.__getitem__` with its argument handling -/
+
+/-- The exceptions `Slice.__getitem__` can raise. -/
+inductive Err where
+  | indexError | typeError | runtimeError | notImplemented
+deriving Repr, DecidableEq
+
+/-- What `item.start` / `item.stop` can be: `None`, an integer timestamp, a string, anything else (a list, …). -/
+inductive BoundArg where
+  | none
+  | int (t : Int)
+  | str (s : String)
+  | other
+deriving Repr, DecidableEq
+
+/-- The argument of `Slice.__getitem__`. -/
+inductive Item where
+  /-- `np.ndarray` of dtype bool -/
+  | mask (m : List Bool)
+  /-- a Python `slice`; `step` = "a step was given" -/
+  | slice (a b : BoundArg) (step : Bool)
+  /-- any other object with `start` and `stop` attributes (Marker, calibration item, …) -/
+  | obj (a b : BoundArg)
+  /-- anything without `start`/`stop` (a scalar, a list, …) -/
+  | scalar
+deriving Repr, DecidableEq
+
+/-- `_apply_mask` of the three sources: `Continuous` and `TimeSeries` give a `TimeSeries`, `TimeTags` refuses. -/
+def Src.applyMask : Src → List Bool → Except Err Src
+  | .tags _, _ => .error .notImplemented
+  | s, m =>
+    match Verif.C01.applyMask s.samples m with
+    | some r => .ok (.ts r)
+    | none => .error .indexError
+
+/-- `to_timestamp(v, first, after_last)` for one bound (after `None` was replaced by the default):
+    a string is parsed (`RuntimeError` when invalid) and counted from the begin / end by sign; anything that is not
+    a string is returned unchanged (`none` = "unchanged, and not a number"). -/
+def toTimestamp (first afterLast dflt : Int) : BoundArg → Except Err (Option Int)
+  | .none => .ok (some dflt)
+  | .int t => .ok (some t)
+  | .str s =>
+    match parseTime s with
+    | some ns => .ok (some (resolve first afterLast dflt (.rel ns)))
+    | none => .error .runtimeError
+  | .other => .ok none
+
+/-- The window part of `Slice.__getitem__`, in the order of the code: empty source returns itself before any
+    bound is looked at; both bounds go through `to_timestamp` (start first) and only then the number check. -/
+def Src.window (s : Src) (a b : BoundArg) : Except Err Src :=
+  if s.len = 0 then .ok s
+  else
+    match toTimestamp s.start s.stop s.start a with
+    | .error e => .error e
+    | .ok a' =>
+      match toTimestamp s.start s.stop s.stop b with
+      | .error e => .error e
+      | .ok b' =>
+        match a', b' with
+        | some a'', some b'' => .ok (s.slice a'' b'')
+        | _, _ => .error .typeError
+
+/-- `Slice.__getitem__`. -/
+def Src.getitemFull (s : Src) : Item → Except Err Src
+  | .mask m => s.applyMask m
+  | .slice a b step => if step then .error .indexError else s.window a b
+  | .obj a b => s.window a b
+  | .scalar => .error .indexError
+
 /-! ### protocol -/
 open Verif.Proto
 
@@ -282,7 +358,7 @@ def mkSrc? : List String → Option (Src × List String)
     some (.ts (ts.zipIdx.map fun (t, i) => (t, (i : Int))), rest)
   | "tags" :: ts :: rest => do
     let ts ← intList? ts
-    some (.tags ⟨ts, (ts.head?).getD 0, (ts.getLast?.map (· + 1)).getD 0⟩, rest)
+    some (.tags (Tags.init ts none none), rest)
   | _ => none
 
 def applyWindows (s : Src) : List String → Option Src
@@ -292,8 +368,48 @@ def applyWindows (s : Src) : List String → Option Src
     applyWindows (s.getitem a b) rest
   | _ => none
 
+def showErr : Err → String
+  | .indexError => "IndexError"
+  | .typeError => "TypeError"
+  | .runtimeError => "RuntimeError"
+  | .notImplemented => "NotImplementedError"
+
+/-- `N` | integer | `s[codepoints]` | `?` -/
+def boundArg? (s : String) : Option BoundArg :=
+  if s == "N" then some .none
+  else if s == "?" then some .other
+  else if s.startsWith "s" then
+    ((natList? (s.drop 1).toString).map fun cps => .str (String.ofList (cps.map Char.ofNat)))
+  else (s.toInt?).map .int
+
+/-- `M [T,F…]` | `S a b T/F` | `O a b` | `X`; returns the item and the remaining tokens -/
+def item? : List String → Option (Item × List String)
+  | "M" :: m :: rest => do let m ← listOf? bool? m; some (.mask m, rest)
+  | "S" :: a :: b :: st :: rest => do
+    let a ← boundArg? a; let b ← boundArg? b; let st ← bool? st
+    some (.slice a b st, rest)
+  | "O" :: a :: b :: rest => do let a ← boundArg? a; let b ← boundArg? b; some (.obj a b, rest)
+  | "X" :: rest => some (.scalar, rest)
+  | _ => none
+
+def applyItems (s : Src) : Nat → List String → Option (Except Err Src)
+  | _, [] => some (.ok s)
+  | 0, _ => none
+  | fuel + 1, toks => do
+    let (it, rest) ← item? toks
+    match s.getitemFull it with
+    | .error e => some (.error e)
+    | .ok r => applyItems r fuel rest
+
+/-- number of samples, and for a non-empty source its `start` and `stop` -/
+def showBounds (s : Src) : String :=
+  if s.len = 0 then "0" else toString s.len ++ " " ++ toString s.start ++ " " ++ toString s.stop
+
 /-- ops:
   `c01.get <src…> a b [c d …]`  nested windows, answers the resulting source
+  `c01.bounds <src…> a b [c d …]` same, answers `len start stop` of the result (`0` when empty)
+  `c01.item <src…> <item> [<item> …]`  the whole `Slice.__getitem__`, items applied in turn; answers the
+                                  samples of the result or the name of the exception
   `c01.getu cont st dt n a b`    the unfixed (pinned) continuous arithmetic
   `c01.mask [t…] [T/F…]`
   `c01.parse [codepoints]`        -/
@@ -302,6 +418,15 @@ def handle : List String → Option String
     let (s, ws) ← mkSrc? rest
     let r ← applyWindows s ws
     some (showSrc r)
+  | "c01.bounds" :: rest => do
+    let (s, ws) ← mkSrc? rest
+    let r ← applyWindows s ws
+    some (showBounds r)
+  | "c01.item" :: rest => do
+    let (s, its) ← mkSrc? rest
+    match ← applyItems s its.length its with
+    | .ok r => some (showSamples r.samples)
+    | .error e => some (showErr e)
   | ["c01.getu", "cont", st, dt, n, a, b] => do
     let st ← int? st; let dt ← int? dt; let n ← nat? n; let a ← int? a; let b ← int? b
     if dt ≤ 0 then none
